@@ -225,6 +225,10 @@ def strip_mismatch_hessian(atoms, kt, d, Sp, Sb, eta1, eta2, a, b, startp, start
 
 def build(cfg, values=None):
     variant = cfg['variant']
+    if variant == 'assembly-fext':
+        # force vector of a panel assembly = the panels' stand-alone vectors at their ranges (harness shared with C07)
+        from . import c07
+        return c07.build(dict(cfg, variant='assembly'), values)
     ctx = PanelCtx(values=values, seed=cfg.get('seed', 0))
     pol = BayPolicy()
     obs = []
@@ -620,6 +624,9 @@ def configs(tier, seed):
     # panels of one assembly under different kinds of pre-load (one in pure shear, one unloaded, one in transverse load only)
     out.append({'variant': 'assembly-sum', 'which': 'kG0', 'panels': [(2, 2), (1, 1), (1, 2)], 'panel_loads': ['shear-only', 'none', 'Nyy-only'], 'm': 2, 'n': 2,
                 'group': 'assembly-sum:kG0:panel-wise-different-loads'})
+    # panels with constant loads only, incrementable loads only, both and none, in different positions of the assembly
+    out.append({'variant': 'assembly-fext', 'panels': [(2, 1, 0, 1), (1, 2, 1, 0), (1, 1, 0, 0), (1, 1, 1, 1)], 'm': 2, 'n': 1, 'group': 'assembly-fext'})
+    out.append({'variant': 'assembly-fext', 'panels': [(1, 1, 1, 0), (2, 2, 0, 2)], 'm': 2, 'n': 2, 'group': 'assembly-fext'})
     out.append({'variant': 'assembly-sum', 'which': 'fint', 'panels': [(2, 1), (1, 1)], 'm': 2, 'n': 1, 'group': 'assembly-sum:fint', 'timeout_ms': 120000})
     out.append({'variant': 'assembly-sum', 'which': 'kT', 'panels': [(1, 1), (1, 2)], 'm': 1, 'n': 1, 'group': 'assembly-sum:kT', 'timeout_ms': 120000})
     # the same sums after other calls on the same assembly object (the connection matrix is cached between calls)
